@@ -20,6 +20,7 @@ package c17
 
 import (
 	"fmt"
+	"github.com/iotaledger/hive.go/runtime/debug"
 	"sort"
 	"strings"
 	"sync"
@@ -123,6 +124,10 @@ func newLocker(kind string) locker {
 	switch kind {
 	case "starving":
 		return starvingLocker{syncutils.NewStarvingMutex()}
+	case "starving_copied":
+		// "A StarvingMutex must not be copied after first use": a copy made before the first use is a mutex of its own
+		holder := &struct{ mu syncutils.StarvingMutex }{mu: *syncutils.NewStarvingMutex()} //nolint:govet // copy before first use
+		return starvingLocker{&holder.mu}
 	case "starving_zero":
 		// "The zero value for a StarvingMutex is an unlocked mutex."
 		return starvingLocker{new(syncutils.StarvingMutex)}
@@ -374,7 +379,12 @@ var graceDur = 150 * time.Microsecond
 var graceBudget = 3 * time.Millisecond
 
 // runScript executes the script on a fresh mutex under the controller.
+// debugFlipAt: number of issued operations after which runScript switches hive.go's debug mode (-1 = never). Set by the
+// test that drew it for the duration of one script; tests of this package run one script at a time.
+var debugFlipAt = -1
+
 func runScript(s script, inj *injection) (res result) {
+	debugFlipped := false
 	l := newLocker(s.Mutex)
 	mon := newMonitor()
 	n := len(s.Progs)
@@ -629,6 +639,13 @@ func runScript(s script, inj *injection) (res result) {
 	}
 
 	for res.Kind == "" {
+		if debugFlipAt >= 0 && issued == debugFlipAt && !debugFlipped {
+			// hive.go's process-wide debug mode is switched while operations may be blocked (they chose their wait path
+			// under the old setting and leave it under the new one)
+			debugFlipped = true
+			debug.SetEnabled(!debug.GetEnabled())
+			trace("controller: debug mode switched to %v", debug.GetEnabled())
+		}
 		if injPending && issued == inj.Pos {
 			injPending = false
 			if !doInjection() {
